@@ -5,7 +5,7 @@ EXTENDS EioClientProps, Json, IOUtils, TLCExt
 
 Tr == JsonDeserialize(IOEnv.TRACE_FILE)
 VARIABLES tid, l
-tvars == <<now, c, call, rd, wr, ws, dj, wj, nid, tid, l>>
+tvars == <<now, c, call, rd, wr, ws, dj, wj, hj, nid, tid, l>>
 
 Match(st) ==
     /\ now = st.now
@@ -57,5 +57,5 @@ Finish ==
 
 TraceNext == Consume \/ Silent \/ Finish
 TraceSpec == TraceInit /\ [][TraceNext]_tvars
-DiagPrint == PrintT(<<"DIAG", l, now, c, call, rd, wr, ws, dj, wj>>)
+DiagPrint == PrintT(<<"DIAG", l, now, c, call, rd, wr, ws, dj, wj, hj>>)
 =============================================================================
